@@ -146,6 +146,18 @@ type ttObs struct {
 type ttCtl struct {
 	cur *ttCallSpec
 	obs *ttObs
+	mu  sync.Mutex
+	// armed: the next handler that runs is held back at its entry — it holds its typed input, has not looked
+	// at it yet — until released (overlapping calls held inside the handler: hold=h)
+	hpark *ttPark
+}
+
+func (c *ttCtl) takePark() *ttPark {
+	c.mu.Lock()
+	defer c.mu.Unlock()
+	p := c.hpark
+	c.hpark = nil
+	return p
 }
 
 type ttReg struct {
@@ -158,6 +170,11 @@ func ttHandle[In, Out any](ctl *ttCtl, name string, in In) (res *CallToolResult,
 	o, c := ctl.obs, ctl.cur
 	o.inv++
 	o.who = name
+	if p := ctl.takePark(); p != nil {
+		close(p.parked)
+		<-p.release
+	}
+	// what the handler sees when it looks at its input (after a hold: after the calls that overlapped it)
 	o.seen, _ = json.Marshal(in)
 	switch c.herr {
 	case 1:
@@ -2126,6 +2143,7 @@ type ttCallRun struct {
 	done            chan struct{}
 	ctx             context.Context
 	cancel          context.CancelFunc
+	hold            string // a: held after the handler chain has returned; h: held inside the handler
 	unanswered      bool // no response arrived within the harness's patience (the call was then abandoned)
 }
 
@@ -2172,10 +2190,17 @@ func (w *ttWorld) callGroup(group [][]string) []*ttCallRun {
 		w.mw.mu.Lock()
 		w.mw.panicked = false
 		w.mw.park = nil
+		w.ctl.mu.Lock()
+		w.ctl.hpark = nil
 		if i < len(live)-1 {
 			r.park = &ttPark{parked: make(chan struct{}), release: make(chan struct{})}
-			w.mw.park = r.park
+			if r.hold == "h" {
+				w.ctl.hpark = r.park
+			} else {
+				w.mw.park = r.park
+			}
 		}
+		w.ctl.mu.Unlock()
 		w.mw.mu.Unlock()
 		if r.park == nil {
 			w.callDo(r)
@@ -2193,15 +2218,17 @@ func (w *ttWorld) callGroup(group [][]string) []*ttCallRun {
 			}
 		}
 		w.mw.mu.Lock()
-		r.panicked = w.mw.panicked
+		r.panicked, w.mw.panicked = w.mw.panicked, false
+		w.mw.park = nil
 		w.mw.mu.Unlock()
+		w.ctl.takePark() // a call that never reached its parking place leaves nothing armed
 	}
 	for i := len(live) - 2; i >= 0; i-- {
 		r := live[i]
 		close(r.park.release)
 		select {
 		case <-r.done:
-		case <-time.After(4 * time.Second):
+		case <-time.After(10 * time.Second):
 			// released, and no response: the observation of this call (res=unanswered)
 			r.unanswered = true
 		}
@@ -2210,6 +2237,12 @@ func (w *ttWorld) callGroup(group [][]string) []*ttCallRun {
 			r.cancel()
 			<-r.done
 		}
+		// a call held inside its handler runs the rest of the wrapper only now
+		w.mw.mu.Lock()
+		if w.mw.panicked {
+			r.panicked, w.mw.panicked = true, false
+		}
+		w.mw.mu.Unlock()
 	}
 	for _, r := range live {
 		w.callFinish(r)
@@ -2331,7 +2364,11 @@ func (w *ttWorld) callPrep1(toks []string, run *ttCallRun) (op string, obs strin
 	tags = append(tags, "lib:"+lib)
 
 	if k := ttKV(toks, "ovl"); k != "" {
-		tags = append(tags, "overlap", "ovl:"+k)
+		run.hold = ttKV(toks, "hold")
+		if run.hold != "h" {
+			run.hold = "a"
+		}
+		tags = append(tags, "overlap", "ovl:"+k, "hold:"+run.hold)
 	}
 	run.early, run.name, run.ti, run.spec, run.a, run.lib = false, name, ti, spec, a, lib
 	return op, "", tags
@@ -2814,7 +2851,9 @@ func (c *ttCaseGen) addCallWith(t *ttGenTool, args, atag, out string) {
 func (c *ttCaseGen) addOverlap(ts ...*ttGenTool) {
 	for i, t := range ts {
 		c.addCall(t)
-		c.lines[len(c.lines)-1] += fmt.Sprintf(" ovl=%d", i+1)
+		// where the call is held while the next one runs: after its handler chain has returned (a), or inside
+		// its handler, before the handler looks at its input (h)
+		c.lines[len(c.lines)-1] += fmt.Sprintf(" ovl=%d hold=%s", i+1, c.g.pick("a", "a", "h"))
 	}
 }
 
